@@ -21,7 +21,7 @@ from .exceptions import (
     NoSuchParameter,
     MPilotError,
 )
-from .params import ResultParameter, ListParameter
+from .params import ResultParameter, ListParameter, DataTypeParameter
 from .parser.parser import Parser, ProgramNode
 from .utils import flatten, EEMS_COMMANDS, convert_eems2_commands
 
@@ -199,38 +199,50 @@ class Program(object):
         # type: () -> str
         """ Returns a string with commands formatted in the MPilot command file syntax. """
 
-        def serialize_value(value, argument, command):
-            # type: (Any, Argument, Command) -> str
+        def quote(value):
+            # type: (Any) -> str
 
-            param = command.inputs[argument.name]
+            text = six.text_type(value).replace("\\", "\\\\").replace('"', '\\"')
+            text = text.replace("\n", "\\n").replace("\r", "\\r").replace("\t", "\\t")
+            return '"{}"'.format(text)
 
-            if isinstance(param, ResultParameter) or (
-                isinstance(param, ListParameter)
-                and isinstance(param.value_type, ResultParameter)
-            ):
+        def serialize_value(value, param):
+            # type: (Any, Any) -> str
+
+            if isinstance(value, Argument):
+                value = value.value
+            if isinstance(value, (list, tuple)):
+                item_param = param.value_type if isinstance(param, ListParameter) else param
+                return "[{}]".format(", ".join(serialize_value(x, item_param) for x in value))
+            if isinstance(value, Command):
+                return value.result_name
+            if isinstance(param, ResultParameter):
                 return str(value)
+            if isinstance(param, DataTypeParameter) and not isinstance(value, six.string_types):
+                for name, data_type in param.valid_types.items():
+                    if data_type == value:
+                        return quote(name)
+            if isinstance(value, float):
+                text = repr(value)
+                mantissa, e, exponent = text.partition("e")
+                if e and "." not in mantissa:
+                    text = mantissa + ".0e" + exponent
+                return text
             if isinstance(value, six.string_types):
-                return '"{}"'.format(value)
-            else:
-                return str(value)
+                return quote(value)
+            return str(value)
 
         def serialize_argument(argument, command):
             # type: (Argument, Command) -> str
 
-            if isinstance(argument, ListArgument):
-                return "[{}]".format(
-                    ", ".join(
-                        serialize_value(x, argument, command) for x in argument.value
-                    )
-                )
-            elif isinstance(argument.value, dict):
+            if isinstance(argument.value, dict):
                 return "[\n{}\n    ]".format(
                     ",\n".join(
-                        '        "{}": "{}"'.format(key, value)
+                        "        {}: {}".format(quote(key), quote(value))
                         for key, value in argument.value.items()
                     )
                 )
-            return serialize_value(argument.value, argument, command)
+            return serialize_value(argument.value, command.inputs.get(argument.name))
 
         def serialize_command(command):
             # type: (Command) -> str
